@@ -88,9 +88,15 @@ Proof.
   - intros [_ H]. destruct (jstep p s l); [eauto|discriminate].
   - intros [s' H]. rewrite H. split; [|reflexivity].
     unfold jcandidates. apply in_or_app.
-    destruct l; try (left; simpl; tauto); right; apply in_or_app;
-      unfold jstep in H; destruct (take_job id (q_busy (j_q s))) as [[j r]|] eqn:T; try discriminate;
-      apply take_job_defined_in in T; [left|right]; apply in_map; exact T.
+    destruct l; try (left; simpl; tauto); right; unfold jstep in H.
+    + destruct (take_job id (q_jobs (j_q s))) as [[j r]|] eqn:T; try discriminate.
+      apply take_job_defined_in in T. do 2 (apply in_or_app; right). apply in_or_app; left. apply in_map; exact T.
+    + destruct (take_job id (q_busy (j_q s))) as [[j r]|] eqn:T; try discriminate.
+      apply take_job_defined_in in T. apply in_or_app; left. apply in_map; exact T.
+    + destruct (take_job id (q_busy (j_q s))) as [[j r]|] eqn:T; try discriminate.
+      apply take_job_defined_in in T. apply in_or_app; right. apply in_or_app; left. apply in_map; exact T.
+    + destruct (take_job id (q_out (j_q s))) as [[j r]|] eqn:T; try (destruct (c_pc (j_c s)); discriminate).
+      apply take_job_defined_in in T. do 3 (apply in_or_app; right). apply in_map; exact T.
 Qed.
 
 (* ------------------------------------------------------------------------------------------------ *)
@@ -123,7 +129,7 @@ Ltac step_cases H :=
 
 Lemma jstep_measure : forall p s l s', jstep p s l = Some s' -> jmeasure s' < jmeasure s.
 Proof.
-  intros p [[lf cu rp lr] [tk jb bs ou dn] [cp ds rc up pl ex]] l s' H.
+  intros p [[lf cu rp lr re] [tk jb bs ou dn] [cp ds rc up pl ex]] l s' H.
   destruct l; step_cases H; unfold jmeasure; simpl;
     repeat rewrite ?app_length, ?lines_app, ?lines_cons, ?lines_nil; simpl;
     try match goal with T : take_job _ _ = Some _ |- _ => apply take_job_some in T; destruct T as (? & ? & ?) end;
@@ -198,7 +204,7 @@ Ltac inv_goal :=
 
 Lemma inv_step : forall p s l s', Inv p s -> jstep p s l = Some s' -> Inv p s'.
 Proof.
-  intros p [[lf cu rp lr] [tk jb bs ou dn] [cp ds rc up pl ex]] l s' [I1 I2 I3 I4 I5 I6 I7 I8] H.
+  intros p [[lf cu rp lr re] [tk jb bs ou dn] [cp ds rc up pl ex]] l s' [I1 I2 I3 I4 I5 I6 I7 I8] H.
   unfold outstanding, jcancelled in *; simpl in *.
   destruct l; step_cases H; inv_goal;
     try solve [ lia | congruence | discriminate | tauto
@@ -241,14 +247,14 @@ Proof.
   intros p s V R H. pose proof (inv_reach _ _ R) as I.
   destruct (q_busy (j_q s)) as [|j bs] eqn:B.
   - destruct H as [H|H]; [|congruence]. destruct (q_jobs (j_q s)) as [|x js] eqn:J; [congruence|].
-    exists JTake. unfold jstep. rewrite J, B. simpl. destruct V as (Vw & _).
+    exists (JTake (jstart x)). unfold jstep. rewrite J, B. simpl. rewrite Nat.eqb_refl. destruct V as (Vw & _).
     assert (E : 0 <? jp_w p = true) by (apply Nat.ltb_lt; lia). rewrite E. eauto.
   - destruct (json_workers_never_block p s V R j) as (_ & s' & S); [rewrite B; left; reflexivity|].
     exists (JSend (jstart j)), s'. split; [reflexivity|exact S].
 Qed.
 
 Definition reader_label (l : jlabel) : bool :=
-  match l with JScan | JEof | JTok | JRCancel | JEnq | JDone => true | _ => false end.
+  match l with JScan | JEof | JEofClosed | JTok | JRCancel | JEnq | JDone => true | _ => false end.
 
 (* the reader goroutine: it can only wait for a token, and then only while Run has not been cancelled *)
 Lemma json_reader_live : forall p s, jvalid p -> jreach p s ->
@@ -256,7 +262,7 @@ Lemma json_reader_live : forall p s, jvalid p -> jreach p s ->
   (forall f, r_pc (j_r s) = RSelect f -> q_tokens (j_q s) < jp_ct p \/ jcancelled s = true) ->
   exists l s', reader_label l = true /\ jstep p s l = Some s'.
 Proof.
-  intros p [[lf cu rp lr] [tk jb bs ou dn] [cp ds rc up pl ex]] V R J X T. simpl in *. subst jb.
+  intros p [[lf cu rp lr re] [tk jb bs ou dn] [cp ds rc up pl ex]] V R J X T. simpl in *. subst jb.
   pose proof (inv_reach _ _ R) as I. destruct I as [_ _ _ _ _ I6 _ _]. simpl in I6.
   destruct V as (_ & _ & Vcj & _).
   destruct rp; try discriminate.
@@ -279,11 +285,11 @@ Proof.
   2:{ destruct (json_pool_live p s V R) as (l & s' & W & S); [left; congruence|].
       exists l, s'. split; [destruct l; simpl in *; congruence|exact S]. }
   (* no job queued or held *)
-  destruct s as [[lf cu rp lr] [tk jb bs ou dn] [cp ds rc up pl ex]]. simpl in *. subst jb bs.
+  destruct s as [[lf cu rp lr re] [tk jb bs ou dn] [cp ds rc up pl ex]]. simpl in *. subst jb bs.
   destruct I as [I1 I2 I3 I4 I5 I6 I7 I8]. unfold outstanding, jcancelled, jfinalb in *. simpl in *.
   (* the consumer can move unless it is at the select with nothing to receive *)
   assert (CT : forall j, cp = CTok j -> exists l s', is_env_label l = false /\
-            jstep p (mkjstate (mkreader lf cu rp lr) (mkpool tk [] [] ou dn) (mkcons cp ds rc up pl ex)) l = Some s').
+            jstep p (mkjstate (mkreader lf cu rp lr re) (mkpool tk [] [] ou dn) (mkcons cp ds rc up pl ex)) l = Some s').
   { intros j E. subst cp. exists JTokRel. unfold jstep; simpl. destruct tk; [lia|].
     destruct (job_err (jp_bad p) j); eauto. }
   destruct cp as [|j|e|].
@@ -299,7 +305,7 @@ Proof.
            { intros f E. subst rp. left. specialize (I3 eq_refl). simpl in I3.
              destruct V as (_ & _ & _ & Vct & _). lia. }
            exists l, s'. split; [destruct l; simpl in *; congruence|exact S].
-    + exists JRecv. unfold jstep; simpl. eauto.
+    + exists (JRecv (jstart o)). unfold jstep; simpl. rewrite Nat.eqb_refl. eauto.
   - eapply CT; reflexivity.
   - destruct e; [exists JParseErr|exists JProcEnd]; unfold jstep; simpl; eauto.
   - (* CRet: cancelled, so the reader escapes *)
@@ -327,7 +333,7 @@ Proof.
       destruct (r_pc (j_r s)); simpl in *; auto; discriminate.
     + intros f E. right. unfold jcancelled. rewrite C. apply orb_true_r.
     + exists l, s'. repeat split; [destruct l; simpl in *; congruence..|exact S].
-  - intros l s' H. destruct s as [[lf cu rp lr] [tk jb bs ou dn] [cp ds rc up pl ex]]. simpl in C. subst cp.
+  - intros l s' H. destruct s as [[lf cu rp lr re] [tk jb bs ou dn] [cp ds rc up pl ex]]. simpl in C. subst cp.
     destruct l; step_cases H; simpl; auto.
 Qed.
 
@@ -366,9 +372,41 @@ Lemma json_tokens_above_out_blocks :
                  exists j, In j (q_busy (j_q s)) /\ jstep p s (JSend (jstart j)) = None /\ c_pc (j_c s) = CSel.
 Proof.
   exists (mkjparams 1 2 1 4 2 1 false [] None).
-  exists [JScan; JTok; JEnq; JScan; JTok; JEnq; JTake; JSend 0; JTake].
+  exists [JScan; JTok; JEnq; JScan; JTok; JEnq; JTake 0; JSend 0; JTake 1].
   eexists. split; [simpl; lia|]. split; [vm_compute; reflexivity|].
   exists (1, 1). split; [simpl; auto|]. split; reflexivity.
+Qed.
+
+Lemma json_run_bound : forall p tr s, jrun p (jinit p) tr = Some s -> length tr <= 10 * jp_n p + 13.
+Proof. intros p tr s H. apply jrun_bound in H. rewrite jmeasure_init in H. lia. Qed.
+
+Lemma json_workers_never_block_full : forall p s, jvalid p -> jreach p s ->
+  outstanding s <= q_tokens (j_q s) /\ q_tokens (j_q s) <= jp_ct p /\ jp_ct p <= jp_co p /\
+  forall j, In j (q_busy (j_q s)) ->
+    length (q_out (j_q s)) < jp_co p /\ exists s', jstep p s (JSend (jstart j)) = Some s'.
+Proof.
+  intros p s V R. pose proof (inv_reach _ _ R) as I. destruct I as [I1 I2 _ _ _ _ _ _].
+  split; [exact I1|]. split; [exact I2|]. split; [destruct V as (_ & _ & _ & _ & V); exact V|].
+  intros j H. exact (json_workers_never_block p s V R j H).
+Qed.
+
+(* the constants read from the source satisfy the hypotheses when this boolean check computes to true *)
+Definition consts_okb (b bt cj ct co cd : Z) (caps : list Z) : bool :=
+  (1 <=? nn b) && (1 <=? nn bt) && (1 <=? nn cj) && (1 <=? nn ct) && (nn ct <=? nn co) && (nn cd =? 1)
+  && forallb (fun c => 1 <=? nn c) caps.
+
+Lemma consts_valid_of_check : forall b bt cj ct co cd caps, consts_okb b bt cj ct co cd caps = true ->
+  forall w n rerr bad plimit, 1 <= w ->
+  jvalid (mkjparams w n (nn b) (nn cj) (nn ct) (nn co) rerr bad plimit)
+  /\ jvalid (mkjparams w n (nn bt) (nn cj) (nn ct) (nn co) rerr bad plimit)
+  /\ nn cd = 1 /\ Forall (fun c => 1 <= nn c) caps.
+Proof.
+  intros b bt cj ct co cd caps A w n rerr bad plimit W. unfold consts_okb in A.
+  repeat (apply andb_true_iff in A; destruct A as [A ?]).
+  repeat match goal with H : (_ <=? _) = true |- _ => apply Nat.leb_le in H end.
+  unfold jvalid; simpl. repeat split; auto.
+  - apply Nat.eqb_eq; assumption.
+  - apply Forall_forall. intros c Hc. rewrite forallb_forall in H. apply Nat.leb_le. auto.
 Qed.
 
 (* ------------------------------------------------------------------------------------------------ *)
@@ -541,4 +579,17 @@ Proof.
   exists (mknparams 3 0 false false 1 (Some 0)), [NSend SL; NRecv SL; NSend SL]. eexists.
   split; [unfold nvalid; simpl; lia|]. split; [vm_compute; reflexivity|].
   split; [reflexivity|]. unfold stuck_left; simpl. repeat split; lia.
+Qed.
+
+Lemma join_run_bound : forall p tr s, nrun p ninit tr = Some s -> length tr <= 3 * (np_nl p + np_nr p) + 10.
+Proof. intros p tr s H. apply nrun_bound in H. unfold nmeasure, pmeasure, ninit in H. simpl in H. lia. Qed.
+
+Lemma join_leak_forever :
+  exists p tr s, nvalid p /\ nrun p ninit tr = Some s /\ nfinalb s = true /\ stuck_left p s /\
+    forall tr' s', nrun p s tr' = Some s' ->
+      n_l s' = n_l s /\ forallb (fun l => negb (is_producer_label SL l)) tr' = true.
+Proof.
+  destruct join_leak_exists as (p & tr & s & V & R & F & St). exists p, tr, s.
+  split; [exact V|]. split; [exact R|]. split; [exact F|]. split; [exact St|].
+  intros tr' s' H. destruct (stuck_left_forever p tr' s s' St H) as (_ & A & B). auto.
 Qed.
